@@ -118,7 +118,8 @@ def r_reject(data, bad) -> bool:
     for x in data:
         t.register(x)
     before = [(g, a, getattr(t, g)() if a is None else getattr(t, g)(a)) for g, a in GETTERS[:9]]
-    v = {"nan": math.nan, "str": "abc", "none": None}[bad]
+    import decimal
+    v = {"nan": math.nan, "str": "abc", "none": None, "decimal": decimal.Decimal("1.5")}[bad]
     try:
         t.register(v)
         return rt.fail("C09:invalid-observation-accepted", f"{bad} after {data}")
